@@ -15,11 +15,13 @@ CONSTANTS
     Emit = FALSE
     ValidateLayers = TRUE
     ValidateUrls = TRUE
+    CountSeparator = TRUE
+    WriteEmptyUrlLabels = TRUE
     WholeDigests = TRUE
     UrlIdx = "layer"
     ReaderChecksRef = TRUE
     ReaderChecksDigest = TRUE
     ReaderSkipsTarget = TRUE
 SPECIFICATION Spec
-INVARIANTS AllLabelsValid RoundTrip NeighbourUrlsPositional PrefetchSizeRoundTrips MalformedMandatoryRejected TamperLogExplains
+INVARIANTS AllLabelsValid RoundTrip NeighbourUrlsPositional PrefetchSizeRoundTrips MalformedMandatoryRejected TamperLogExplains ExtraKeepsPreset
 CHECK_DEADLOCK FALSE
